@@ -39,6 +39,7 @@ OverrideOK ==
         /\ J!Mul(x, y) = P!Mul(x, y)
         /\ J!Cmp(x, y) = P!Cmp(x, y)
         /\ P!IsBig(J!Mul(x, y))
+        /\ J!Gcd(x, y) = P!Gcd(x, y)
         /\ y.s # 0 => /\ J!QuoT(x, y) = P!QuoT(x, y)
                       /\ J!RemT(x, y) = P!RemT(x, y)
                       /\ J!FloorDiv(x, y) = P!FloorDiv(x, y)
